@@ -1,6 +1,7 @@
 package c11
 
 import (
+	"strconv"
 	"crypto/ecdsa"
 	"crypto/elliptic"
 	"crypto/rand"
@@ -491,6 +492,18 @@ func goodFiles(set []certSpec) fileSet {
 	return fs
 }
 
+// goodFilesNested: one directory per site, the same file names in each (http sources list
+// their files relative to the list's own directory)
+func goodFilesNested(set []certSpec) fileSet {
+	fs := fileSet{}
+	for i, c := range set {
+		_, cp, kp := makeCert(c, i)
+		fs[fmt.Sprintf("s%d/tls-cert.pem", i)] = cp
+		fs[fmt.Sprintf("s%d/tls-key.pem", i)] = kp
+	}
+	return fs
+}
+
 func badFiles(kind string, working []certSpec) fileSet {
 	_, cp, kp := makeCert(certSpec{cn: "bad.example.com", id: "bad/0"}, 0)
 	_, _, otherKey := makeCert(certSpec{cn: "x", id: "bad/1"}, 1)
@@ -565,6 +578,17 @@ func TestC11SourceHistories(t *testing.T) {
 			defer wg.Done()
 			kind := []string{"path", "http", "consul"}[h%3]
 			bad := []string{"broken-pem", "one-of-two-truncated", "truncated", "key-mismatch", "one-of-two-key-mismatch", "missing-key", "garbage", "good-plus-garbage-file", "one-of-two-empty-file", "all-files-empty"}[(h/3+int(hx.Seed()))%10]
+			// http sources: some keep one directory per site; for some the unusable material is a list
+			// whose download is cut off after the first complete certificate/key pair
+			nested := kind == "http" && (h/3)%2 == 0
+			mk := goodFiles
+			if nested {
+				mk = goodFilesNested
+			}
+			if nested || kind == "http" && (h/3)%4 == 1 {
+				bad = "list-cut-off"
+			}
+			var cutList atomic.Bool
 			gen1, gen2 := 100+2*h, 101+2*h
 			set1 := []certSpec{{cn: "one.example.com", sans: []string{"*.one.example.com"}, id: fmt.Sprintf("%d/0", gen1)}, {cn: "two.example.com", id: fmt.Sprintf("%d/1", gen1)}}
 			set2 := []certSpec{{cn: "three.example.com", id: fmt.Sprintf("%d/0", gen2)}, {cn: "one.example.com", id: fmt.Sprintf("%d/1", gen2)}}
@@ -601,7 +625,7 @@ func TestC11SourceHistories(t *testing.T) {
 			var src cert.Source
 			prefix := []string{"/", "/certs/", "/path/to/cert/"}[(h/2)%3] // directory of the list file on the http server
 			var current atomic.Value
-			current.Store(goodFiles(set1))
+			current.Store(mk(set1))
 			var fc *fakeconsul.Server
 			publish := func(fs fileSet) {
 				current.Store(fs)
@@ -621,7 +645,7 @@ func TestC11SourceHistories(t *testing.T) {
 			}
 			if kind == "consul" {
 				fc = fakeconsul.New()
-				publish(goodFiles(set1))
+				publish(mk(set1))
 				src = cert.ConsulSource{CertURL: "http://" + fc.Addr() + "/v1/kv/certs"}
 			} else if kind == "path" {
 				writeDir(certDir, current.Load().(fileSet))
@@ -636,7 +660,21 @@ func TestC11SourceHistories(t *testing.T) {
 							names = append(names, n)
 						}
 						sort.Strings(names)
-						fmt.Fprint(w, strings.Join(names, "\n"))
+						full := strings.Join(names, "\n")
+						if cutList.Load() && len(names) >= 3 {
+							// the connection dies after the first two names (one complete pair)
+							w.Header().Set("Content-Length", strconv.Itoa(len(full)))
+							w.WriteHeader(200)
+							fmt.Fprint(w, names[0]+"\n"+names[1]+"\n")
+							w.(http.Flusher).Flush()
+							if hj, ok := w.(http.Hijacker); ok {
+								if c, _, err := hj.Hijack(); err == nil {
+									c.Close()
+								}
+							}
+							return
+						}
+						fmt.Fprint(w, full)
 						return
 					}
 					if b, ok := fs[strings.TrimPrefix(r.URL.Path, prefix)]; ok {
@@ -686,7 +724,15 @@ func TestC11SourceHistories(t *testing.T) {
 			}
 			// 2. unusable material for ~2.5 s
 			hits0 := atomic.LoadInt64(&listHits)
-			publish(badFiles(bad, set1))
+			if bad == "list-cut-off" {
+				cutList.Store(true)
+				hx.Class("history:http-list-download-cut-off")
+			} else {
+				publish(badFiles(bad, set1))
+			}
+			if nested {
+				hx.Class("history:http-source-with-one-directory-per-site")
+			}
 			start := time.Now()
 			for time.Since(start) < 2500*time.Millisecond {
 				if got := served("one.example.com"); got != set1[0].id {
@@ -707,6 +753,7 @@ func TestC11SourceHistories(t *testing.T) {
 					return
 				}
 			}
+			cutList.Store(false)
 			// 3. a new good set takes effect without restart
 			if kind == "consul" && h%2 == 0 {
 				// the Consul servers were restored from a snapshot in the meantime: indexes restart low
@@ -716,12 +763,12 @@ func TestC11SourceHistories(t *testing.T) {
 			if viaLink {
 				// the next release: written completely, then the link is re-pointed
 				repoint()
-				writeDir(certDir, goodFiles(set2))
+				writeDir(certDir, mk(set2))
 				relink()
-				current.Store(goodFiles(set2))
+				current.Store(mk(set2))
 				hx.Class("history:path-behind-a-release-symlink")
 			} else {
-				publish(goodFiles(set2))
+				publish(mk(set2))
 			}
 			if !waitFor("three.example.com", set2[0].id, 15*time.Second) {
 				errs <- fmt.Sprintf("a good set published after unusable material never took effect (three.example.com served %s) (%s)", served("three.example.com"), ctx)
@@ -738,7 +785,7 @@ func TestC11SourceHistories(t *testing.T) {
 				cur := current.Load().(fileSet)
 				var next fileSet
 				for try := 0; try < 200; try++ {
-					cand := goodFiles(set3)
+					cand := mk(set3)
 					same := len(cand) == len(cur)
 					for name, b := range cand {
 						if len(cur[name]) != len(b) {
